@@ -5,7 +5,7 @@ finite set of *ground instances* of the lemma schemas in LEMMAS below, generated
 for the terms that actually occur in a VC (no quantifiers reach the solver, so
 answers are sat/unsat, not unknown).  Every schema is a theorem about Python's
 unbounded ints; each is (a) cross-checked natively on random/boundary operands
-by `crosscheck_lemmas` at every run; (b) Lean proofs of the schemas were planned but not written (DESIGN.md A.2).
+by `crosscheck_lemmas` at every run; (b) part of them is proved in Lean (lemmas/Lemmas.lean; DESIGN.md A.2 lists which are not).
 
 The schemas are written once, over an abstract algebra `A`, and are evaluated
 both over z3 terms (Z3Alg) and over Python ints (PyAlg).
